@@ -10,6 +10,9 @@
 #include <gmssl/pem.h>
 #include <gmssl/tls.h>
 #include "vh.h"
+#include <openssl/err.h>
+/* exported by the library, not declared in its headers */
+int sm2_public_key_from_der(SM2_KEY *key, const uint8_t **in, size_t *inlen);
 #include "venv.h"
 #include "der.h"
 #include "sm2_ref.h"
